@@ -181,10 +181,20 @@ class GuardSem(Semantics):
 
     def __init__(self) -> None:
         self.at: dict[int, list[frozenset]] = {}
+        # locals that hold a registry read (`x = REG[k]` / `x = REG.get(k)`): a comparison of x is a comparison of that read
+        self.reads: dict[str, str] = {}
 
     def simple(self, state, st):
         for n in walk_local(st):
             self.at.setdefault(id(n), []).append(state)
+        if isinstance(st, ast.Assign) and len(st.targets) == 1 and isinstance(st.targets[0], ast.Name):
+            v = st.value
+            if isinstance(v, ast.Subscript) and dotted(v.value) == REG:
+                self.reads[st.targets[0].id] = f"{REG}.get({norm(v.slice)})"
+            elif isinstance(v, ast.Call) and isinstance(v.func, ast.Attribute) and v.func.attr == "get" and dotted(v.func.value) == REG and v.args:
+                self.reads[st.targets[0].id] = f"{REG}.get({norm(v.args[0])})"
+            else:
+                self.reads.pop(st.targets[0].id, None)
         return (state,)
 
     def on_return(self, state, st):
@@ -200,6 +210,19 @@ class GuardSem(Semantics):
                     cc = canon_cmp(c)
                     if cc is not None:
                         out.add((cc[0], cc[1] == p))
+                    # the same comparison with a local replaced by the registry read it holds
+                    if self.reads and any(isinstance(x, ast.Name) and x.id in self.reads for x in ast.walk(c)):
+                        import copy as _copy
+
+                        class _R(ast.NodeTransformer):
+                            def visit_Name(s_, n_):  # noqa: N805
+                                if n_.id in self.reads and isinstance(n_.ctx, ast.Load):
+                                    return ast.parse(self.reads[n_.id], mode="eval").body
+                                return n_
+                        c2 = _R().visit(_copy.deepcopy(c))
+                        cc2 = canon_cmp(c2)
+                        if cc2 is not None:
+                            out.add((cc2[0], cc2[1] == p))
             return frozenset(out)
 
         return (facts(True),), (facts(False),)
@@ -660,19 +683,31 @@ def r_detach_all(ck: Checker) -> None:
         ck.violation("R-DETACH-ALL", g, g.node, what, construct=f"detach_self returns {[norm(r.value) for r in rets if r.value is not None]}")
     # the helper reports truthfully
     h = ck.repo.func(NODE, "_unregister")
-    leaves = decision_tree(h.node.body)
+    leaves = decision_tree(h.node.body, resolve=True)
     p = h.node.args.args[0].arg
     key = "is(" + ",".join(sorted((f"{REG}.get({p}.id)", p))) + ")"
+    key_sub = "is(" + ",".join(sorted((f"{REG}[{p}.id]", p))) + ")"
+    key_in = f"in({p}.id,{REG})"
+    key_none = k_none(f"{REG}.get({p}.id)")
     what = "_unregister removes the entry and returns True exactly when the entry under node.id is the node itself"
     bad = None
     for lf in leaves:
-        if set(lf.assign) != {key}:
-            bad = f"decides on {sorted(lf.assign)}"
-            break
+        a_ = lf.assign
+        if set(a_) - {key, key_sub, key_in, key_none}:
+            raise Unsupported(f"_unregister decides on {sorted(a_)}", h.node)
+        # "the entry under node.id is the node itself", from the spellings: one identity test, or presence followed by identity
+        if key in a_:
+            entry = a_[key]
+        elif a_.get(key_in) is False or a_.get(key_none) is True:
+            entry = False
+        elif key_sub in a_ and (a_.get(key_in) is True or a_.get(key_none) is False):
+            entry = a_[key_sub]
+        else:
+            raise Unsupported(f"_unregister decides on {sorted(a_)}", h.node)
         removed = any(k == "remove" for st in lf.stmts for k, _, _ in reg_mutations(ast.FunctionDef(name="x", args=h.node.args, body=[st], decorator_list=[], lineno=0, col_offset=0)))
         rv = lf.value.value if isinstance(lf.value, ast.Constant) else None
-        if removed != lf.assign[key] or rv is not lf.assign[key]:
-            bad = f"entry-is-node={lf.assign[key]}: removed={removed} returns={lf.val()}"
+        if removed != entry or rv is not entry:
+            bad = f"entry-is-node={entry}: removed={removed} returns={lf.val()}"
     if bad:
         ck.violation("R-DETACH-ALL", h, h.node, what, construct=f"_unregister: {bad}")
     else:
